@@ -12,8 +12,8 @@ pub struct Bytes {
     pub max_len: usize,
 }
 
-pub const BYTE_ALPHABET: &[u8] = b"<>/a =\"'!-?[]&:\xFF";
-pub const BYTE_ALPHABET_THOROUGH: &[u8] = b"<>/a =\"'!-?[]&:\xFF\xC3";
+pub const BYTE_ALPHABET: &[u8] = b"<>/a =\"'!-?[]&:\xFF\xC3\xA9";
+pub const BYTE_ALPHABET_THOROUGH: &[u8] = b"<>/a =\"'!-?[]&:\xFF\xC3\xA9_";
 
 fn strings_len(base: u64, max_len: usize) -> u64 {
     let mut total = 0u64;
@@ -73,6 +73,7 @@ pub fn xml_tokens() -> Vec<Vec<u8>> {
         b"&amp;", b"&", b"<!--", b"-->", b"<![CDATA[", b"]]>", b"<?xml version=\"1.0\"?>", b"<?pi", b"?>",
         b"<!DOCTYPE a>", b"<!DOCTYPE a [<!ENTITY e \"v\">]>", b"\xFF", b"\xC3", b":",
         b"<_", b"</_>", b"<-.", b"<1a", b" _=\"\"",
+        b"\xA9", b"<?xml version=\"1.0\" encoding=\"ISO-8859-1\"?>",
     ];
     t.into_iter().map(|x| x.to_vec()).collect()
 }
